@@ -8,6 +8,7 @@ import (
 	"pgregory.net/rapid"
 
 	"verif/conv"
+	"verif/gen"
 	"verif/harness"
 	m "verif/refmodel"
 )
@@ -19,6 +20,11 @@ var subC03 = harness.NewSub("c03-marshal-vs-reference", func(c valCase, d harnes
 		return fmt.Errorf("GENERATOR BUG: reference cannot encode a D-value: %v", werr)
 	}
 	pk := conv.ToPion(c.P)
+	if x, ok := pk.(*rtcp.ExtendedReport); ok && c.Junk != 0 {
+		// the blocks' exported header fields are Marshal's to fill in; what they held before (a
+		// decode of other bytes, a reused struct) must not reach the wire
+		c15ApplyJunk(x, c.Junk)
+	}
 	got, err := pk.Marshal()
 	if err != nil {
 		return fmt.Errorf("Marshal rejected a well-formed %s: %v\nvalue: %s", c.P.Kind, err, conv.JSON(c.P))
@@ -135,6 +141,9 @@ func TestC03(t *testing.T) {
 	defer harness.Uncaught(t)
 	harness.RapidCheck(t, harness.Scale(6000, 40000), 3, func(rt *rapid.T) {
 		c := valCase{P: genValue(rt)}
+		if c.P.Kind == m.KXR && rapid.Bool().Draw(rt, "xr.stale-headers") {
+			c.Junk = gen.U32(rt, "xr.junk")
+		}
 		harness.Record(subC03.Name, c, c03NonTrivial(c.P), classesOf(c.P)...)
 		subC03.Check(rt, c)
 	})
